@@ -282,10 +282,19 @@ func (conR *Reactor) ReceiveEnvelope(e p2p.Envelope) {
 				return
 			}
 			// Peer claims to have a maj23 for some BlockID at H,R,S,
-			err := votes.SetPeerMaj23(msg.Round, msg.Type, ps.peer.ID(), msg.BlockID)
-			if err != nil {
-				conR.Switch.StopPeerForError(e.Src, err)
-				return
+			if conR.WaitSync() {
+				// consensus is not running: nobody reads the queue, nothing is replayed
+				err := votes.SetPeerMaj23(msg.Round, msg.Type, ps.peer.ID(), msg.BlockID)
+				if err != nil {
+					conR.Switch.StopPeerForError(e.Src, err)
+					return
+				}
+			} else {
+				// The claim makes the vote sets admit votes they would otherwise reject as
+				// conflicting, so it has to reach the state machine the way votes do: through
+				// the peer queue, which is written to the WAL. Applied from here, a restart
+				// would forget it, and with it every vote (and lock) that depended on it.
+				cs.peerMsgQueue <- msgInfo{msg, e.Src.ID()}
 			}
 			// Respond with a VoteSetBitsMessage showing which votes we have.
 			// (and consequently shows which we don't have)
